@@ -140,6 +140,10 @@ func (d *depsCase) runBody(owner string, ctx context.Context) (ret error) {
 		var err error
 		if b.Out.Code == -1 && b.Out.Msg == context.Canceled.Error() {
 			err = context.Canceled // the very value a cancelled context reports: still an ordinary failure of the dependency
+		} else if b.Out.Code == -1 && b.Out.Msg == context.DeadlineExceeded.Error() {
+			err = context.DeadlineExceeded // an error whose dynamic value is the zero value of a struct type: non-nil all the same
+		} else if b.Out.Code == -1 && b.Out.Msg == "" {
+			err = zeroErr(0) // the zero value of a named integer type with an Error method (empty message)
 		} else if b.Out.Code == -1 {
 			err = errors.New(b.Out.Msg)
 		} else {
@@ -167,6 +171,11 @@ func (d *depsCase) runBody(owner string, ctx context.Context) (ret error) {
 		panic(b.Out.Msg)
 	}
 }
+
+// zeroErr is an error type whose zero value is a perfectly good (non-nil) error.
+type zeroErr int
+
+func (zeroErr) Error() string { return "" }
 
 // The three real dependency functions; identity is (function, id), the id encodes case and key.
 func depNode(id int) error { return curDeps.runBody(fmt.Sprintf("k%d", id-curDeps.base), context.Background()) }
@@ -232,6 +241,8 @@ func genDepsProgram(r *rng.R, nkeys, nroots int, fatalZero bool) map[string]*dBo
 		}
 		if b.Out.Kind == "err" && r.Chance(1, 4) {
 			b.Out.Code, b.Out.Msg = -1, context.Canceled.Error() // fails with context.Canceled itself (some roots run with cancelled contexts)
+		} else if b.Out.Kind == "err" && r.Chance(1, 4) {
+			b.Out.Code, b.Out.Msg = -1, context.DeadlineExceeded.Error() // a zero-valued struct as error value
 		}
 		if b.Sig == 2 && b.Out.Kind == "err" {
 			b.Out.Kind = "panicErr" // a func(int) cannot return an error
